@@ -1,5 +1,6 @@
 import SwcVerif.Props.C06
 import SwcVerif.Refine.Subtree
+import SwcVerif.Refine.Closures
 /-! # C06, tied to the source by the translator
 
 `Gen.Algo.to_sub_topology` is regenerated from `swcgeom/core/swc_utils/subtree.py` on every run; it is the compaction +
@@ -19,5 +20,169 @@ theorem generated_toSubTopology_eq_model (subId subPid : List Int) (hl : subId.l
 /-- non-vacuity (kernel-evaluated): rows 1 and 3 removed; and a kept row whose parent was removed raises -/
 example : to_sub_topology ([0, -2, 2, -2, 4], [-1, 0, 0, 2, 2]) = some (([0, 1, 2], [-1, 0, 1]), [0, 2, 4]) := by decide +kernel
 example : to_sub_topology ([0, -2, 2], [-1, 0, 1]) = none := by decide +kernel
+
+/-! ## `get_subtree_impl`, as translated (closure + translated traversal + fancy indexing + translated compaction) -/
+
+theorem take_getD (pids : List Int) : ∀ (ids : List Int), (∀ i ∈ ids, 0 ≤ i ∧ i.toNat < pids.length) →
+    Py.take pids ids = some (ids.map fun i => pids.getD i.toNat (-1)) := by
+  intro ids
+  induction ids with
+  | nil => intro _; rfl
+  | cons i is ih =>
+    intro h
+    have hi := h i List.mem_cons_self
+    have e : i = ((i.toNat : Nat) : Int) := by omega
+    have h1 : Py.idx pids i = some (pids.getD i.toNat (-1)) := by
+      have h0 : Py.idx pids ((i.toNat : Nat) : Int) = pids[i.toNat]? := Py.idx_nat _ _ hi.2
+      rw [← e] at h0
+      rw [h0]; simp [List.getD, hi.2]
+    have := ih (fun j hj => h j (List.mem_cons_of_mem _ hj))
+    simp only [Py.take] at this ⊢
+    simp [List.mapM_cons, h1, this]
+
+/-- **the translated `get_subtree_impl` equals the model** on the subtree `s` at any node of a tree object (ids = positions):
+the ids collected by the translated `enter` lambda on the translated traversal, the gathered parents, the root's parent reset,
+and the translated compaction together return what `Sub.getSubtree` returns — the record `subtree_nodes` characterises -/
+theorem generated_getSubtree_eq_model (pids : List Int) (s : Rose) (h : Represents s (rangeI pids.length) pids)
+    (hin : ∀ i ∈ s.ids, 0 ≤ i ∧ i.toNat < pids.length) (F : Nat) :
+    get_subtree_impl (2 * s.size + F + 1) (rangeI pids.length) pids s.id =
+      (getSubtree pids s.id).map (fun r => ((Py.range (r.mapping.length : Int), r.newPid), r.mapping)) := by
+  have hsz : s.size ≤ pids.length := rose_size_le s _ h.2 hin
+  have hperm := C04.enterOrder_perm s
+  have hcall := RefineClosures.traverse_closures (S := List Int) (T := Unit) (K := Unit) subtree_collect Py.noLeave logEnterIds noLeave
+    (fun st n pv => by simp [subtree_collect, subtree_collect.body, Py.finish, logEnterIds]) (fun st n ks => rfl)
+    (rangeI pids.length) pids s h [] F
+  rw [spec_logEnter] at hcall
+  simp only [List.nil_append] at hcall
+  have hmem : ∀ i ∈ C04.enterOrder s, 0 ≤ i ∧ i.toNat < pids.length := fun i hi => hin i (hperm.mem_iff.1 hi)
+  have htake := take_getD pids (C04.enterOrder s) hmem
+  have hne : 0 < (C04.enterOrder s).length := by
+    rw [hperm.length_eq, SortM.ids_length]; exact SortM.size_pos s
+  have hset : Py.setIdx ((C04.enterOrder s).map fun i => pids.getD i.toNat (-1)) (0 : Int) (-1) =
+      some (((C04.enterOrder s).map fun i => pids.getD i.toNat (-1)).set 0 (-1)) := by
+    have := Py.setIdx_nat ((C04.enterOrder s).map fun i => pids.getD i.toNat (-1)) 0 (-1) (by simpa using hne)
+    simpa using this
+  have hnd : (C04.enterOrder s).Nodup := hperm.nodup_iff.2 h.2
+  have hsub := RefineSub.toSubTopology_refines (C04.enterOrder s) (((C04.enterOrder s).map fun i => pids.getD i.toNat (-1)).set 0 (-1))
+    (by simp) (by
+      have h2 : (((List.zip (C04.enterOrder s) (((C04.enterOrder s).map fun i => pids.getD i.toNat (-1)).set 0 (-1))).filter
+          (fun ip => !decide (ip.1 = -2))).map (·.1)).Sublist
+          ((List.zip (C04.enterOrder s) (((C04.enterOrder s).map fun i => pids.getD i.toNat (-1)).set 0 (-1))).map (·.1)) :=
+        (List.filter_sublist).map _
+      have h3 : (List.zip (C04.enterOrder s) (((C04.enterOrder s).map fun i => pids.getD i.toNat (-1)).set 0 (-1))).map (·.1) =
+          C04.enterOrder s := List.map_fst_zip (by simp)
+      rw [h3] at h2
+      exact List.Nodup.sublist h2 hnd)
+  have hmodel : getSubtree pids s.id = toSubTopology (C04.enterOrder s) (((C04.enterOrder s).map fun i => pids.getD i.toNat (-1)).set 0 (-1)) := by
+    unfold getSubtree
+    simp only
+    rw [run_model _ _ s h _ hsz, spec_logEnter]
+    simp
+  rw [hmodel, ← hsub]
+  simp only [get_subtree_impl, get_subtree_impl.body, Py.seq, Py.bind, hcall, htake, hset]
+  cases to_sub_topology (C04.enterOrder s, ((C04.enterOrder s).map fun i => pids.getD i.toNat (-1)).set 0 (-1)) <;> simp [Py.finish]
+
+/-! ## `propagate_removal`, as translated (closure over the marker array + translated traversal) -/
+
+/-- the list-level total callback the translated closure `propagate` computes on nodes of the table -/
+def propL (s : List Int) (n : Int) (pv : Option Bool) : List Int × Bool :=
+  let rm := pv.getD false || decide (s.getD n.toNat 0 = -2)
+  (if rm then s.set n.toNat (-2) else s, rm)
+
+/-- marker array ↦ the model's marking function -/
+def absMark (s : List Int) : Int → Bool := fun j => decide (0 ≤ j) && decide (s.getD j.toNat 0 = -2)
+
+theorem propagate_closure (s : List Int) (n : Int) (pv : Option Bool) (hn : 0 ≤ n ∧ n.toNat < s.length) :
+    propagate s n pv = some (propL s n pv) := by
+  have e : n = ((n.toNat : Nat) : Int) := by omega
+  have h0 : Py.idx s n = some (s.getD n.toNat 0) := by
+    have h1 : Py.idx s ((n.toNat : Nat) : Int) = s[n.toNat]? := Py.idx_nat _ _ hn.2
+    rw [← e] at h1
+    rw [h1]; simp [List.getD, hn.2]
+  have hs : Py.setIdx s n (-2) = some (s.set n.toNat (-2)) := by
+    have h1 := Py.setIdx_nat s n.toNat (-2) hn.2
+    rw [← e] at h1
+    exact h1
+  cases hp : pv.getD false with
+  | true =>
+    simp [propagate, propagate.body, Py.seq, Py.bind, hp, hs, Py.finish, propL]
+  | false =>
+    by_cases hm : s.getD n.toNat 0 = -2
+    · have hm' := hm
+      simp only [List.getD_eq_getElem?_getD] at hm'
+      simp [propagate, propagate.body, Py.seq, Py.bind, hp, h0, hm, hm', hs, Py.finish, propL]
+    · have hm' := hm
+      simp only [List.getD_eq_getElem?_getD] at hm'
+      simp [propagate, propagate.body, Py.seq, Py.bind, hp, h0, hm, hm', Py.finish, propL, Py.skip]
+
+theorem absMark_step (s : List Int) (n : Int) (pv : Option Bool) (hn : 0 ≤ n ∧ n.toNat < s.length) :
+    propEnter (absMark s) n pv = (absMark (propL s n pv).1, (propL s n pv).2) := by
+  have hm : absMark s n = decide (s.getD n.toNat 0 = -2) := by simp [absMark, hn.1]
+  unfold propEnter propL
+  simp only [hm]
+  cases hrm : (pv.getD false || decide (s.getD n.toNat 0 = -2)) with
+  | false => simp
+  | true =>
+    simp only [if_true]
+    refine Prod.ext ?_ rfl
+    funext j
+    by_cases e : j = n
+    · subst e
+      have : (s.set j.toNat (-2))[j.toNat]?.getD 0 = -2 := by simp [hn.2]
+      simp [upd, absMark, hn.1, this]
+    · simp only [upd, e, if_false, absMark]
+      by_cases hj : 0 ≤ j
+      · have hne : n.toNat ≠ j.toNat := by omega
+        have : (s.set n.toNat (-2))[j.toNat]?.getD 0 = s[j.toNat]?.getD 0 := by
+          simp [List.getElem?_set_ne hne]
+        simp [hj, this]
+      · simp [hj]
+
+/-- **the translated `propagate_removal` equals the model**: on every tree table (ids = positions, root 0) and every marker array of
+the same length it raises nothing, leaves the parents alone, changes markers only to `REMOVAL`, and the rows it marks are exactly those
+the model `Sub.propagateRemoval` marks — by `propagate_marks`, the marked nodes and all their descendants -/
+theorem generated_propagateRemoval (pids : List Int) (r : Rose) (h : IsTree r pids) (l : List Int) (hl : l.length = pids.length) (F : Nat) :
+    ∃ l', propagate_removal (2 * r.size + F + 1) (l, pids) = some (l', pids) ∧ l'.length = l.length ∧
+      (∀ j, absMark l' j = propagateRemoval pids (absMark l) j) ∧
+      (∀ i : Nat, l'[i]? = l[i]? ∨ l'[i]? = some (-2)) := by
+  have hsize := isTree_size h
+  have hin : ∀ j ∈ r.ids, 0 ≤ j ∧ j.toNat < l.length := by
+    intro j hj
+    have := (h.2.1.mem_iff).1 hj
+    simp only [rangeI, List.mem_map, List.mem_range] at this
+    obtain ⟨k, hk, rfl⟩ := this
+    simp; omega
+  -- invariant of the marker array along the traversal
+  let P : List Int → Prop := fun s => s.length = l.length ∧ ∀ i : Nat, s[i]? = l[i]? ∨ s[i]? = some (-2)
+  have hP0 : P l := ⟨rfl, fun _ => Or.inl rfl⟩
+  have hstep : ∀ (s : List Int) (n : Int) (pv : Option Bool), P s → (0 ≤ n ∧ n.toNat < l.length) → P (propL s n pv).1 := by
+    intro s n pv hp _
+    simp only [propL]
+    split
+    · refine ⟨by simp [hp.1], fun i => ?_⟩
+      by_cases e : i = n.toNat
+      · subst e
+        by_cases hlt : n.toNat < s.length
+        · right; simp [hlt]
+        · rw [List.set_eq_of_length_le (by omega)]; exact hp.2 _
+      · rw [List.getElem?_set_ne (fun c => e c.symm)]; exact hp.2 i
+    · exact hp
+  have hcall := RefineClosures.traverse_closures_on (S := List Int) (T := Bool) (K := Unit) P (fun j => 0 ≤ j ∧ j.toNat < l.length)
+    propagate Py.noLeave propL noLeave
+    (fun s n pv hp hn => ⟨propagate_closure s n pv (by rw [hp.1]; exact hn), hstep s n pv hp hn⟩)
+    (fun s n ks hp _ => ⟨rfl, hp⟩)
+    (rangeI pids.length) pids r h.1 l hP0 hin F
+  have habs := (RefineClosures.spec_abs (S := List Int) (S' := Int → Bool) (T := Bool) (K := Unit) absMark P
+    (fun j => 0 ≤ j ∧ j.toNat < l.length) propL noLeave propEnter noLeave
+    (fun s n pv hp hn => ⟨absMark_step s n pv (by rw [hp.1]; exact hn), hstep s n pv hp hn⟩)
+    (fun s n ks hp _ => ⟨rfl, hp⟩) r none l hP0 hin)
+  obtain ⟨e2, p2⟩ := habs
+  rw [h.2.2.1] at hcall
+  refine ⟨(Trav.spec propL noLeave r none l).1, ?_, p2.1, ?_, p2.2⟩
+  · have harange : Py.arange (Py.len pids) = rangeI pids.length := by simp [Py.arange, Py.range, Py.len, rangeI]
+    simp only [propagate_removal, propagate_removal.body, Py.seq, Py.bind, harange, hcall, Py.finish, Option.map]
+  · intro j
+    unfold propagateRemoval
+    rw [run_tree h, e2]
 
 end C06
